@@ -54,12 +54,11 @@ func (n *VPLSNLRI) decodeFromBytes(data []byte, options ...*MarshallingOption) e
 	if len(data) < length+2 {
 		return NewMessageError(BGP_ERROR_UPDATE_MESSAGE_ERROR, BGP_ERROR_SUB_MALFORMED_ATTRIBUTE_LIST, nil, "Not all VPLS NLRI bytes available")
 	}
-	if length == 12 { // BGP-AD
-		// BGP-AD is not supported yet
-		return nil
-	}
-	if len(data) < 19 {
-		return NewMessageError(BGP_ERROR_UPDATE_MESSAGE_ERROR, BGP_ERROR_SUB_MALFORMED_ATTRIBUTE_LIST, nil, "Not all VPLS NLRI bytes available")
+	if length != 17 {
+		// BGP-AD (length 12) is not supported yet. Returning a VPLSNLRI without
+		// RD for it made Serialize panic, and Len() always reports the 19 octets
+		// of the VPLS-BGP form, so any other length mis-frames the NLRI that follow.
+		return NewMessageError(BGP_ERROR_UPDATE_MESSAGE_ERROR, BGP_ERROR_SUB_MALFORMED_ATTRIBUTE_LIST, nil, fmt.Sprintf("unsupported VPLS NLRI length %d", length))
 	}
 	// VPLS-BGP
 	n.rd = GetRouteDistinguisher(data[2:10])
